@@ -484,7 +484,12 @@ def case_eos(p: dict) -> dict:
 
 def eos_cases(tier: str, rtols=(1e-6,)) -> list[dict]:
     models = QUICK_MODELS if tier == "quick" else list(MODELS)
-    scales = [1e-2, 1.0, 1e2] if tier == "quick" else [1e-2, 0.1, 1.0, 10.0, 1e2]
+    # unit systems: the range 1e-2..1e2 the property family quantifies over (C07) plus 1e4, where the tracing step is far above
+    # any absolute number a maintainer might write down (added after a seeded absolute knot separation of 1e-3 was missed).
+    # NOT 1e-5 and below: there the unchanged tree itself loses accuracy (p off by 2.5e-4 relative: scipy BFGS's absolute
+    # gradient tolerance inside findLocalMinimum stops at the starting guess once |grad V| ~ T^3 < 1e-6) - outside the unit
+    # range of the properties, recorded in DESIGN.md as an observation.
+    scales = [1e-2, 1.0, 1e2, 1e4] if tier == "quick" else [1e-2, 0.1, 1.0, 10.0, 1e2, 1e4]
     out = []
     for model in models:
         for Tn in MODELS[model]["Tn"]:
